@@ -23,11 +23,13 @@ open Martian.Determinism Martian.SortKeys List
 /-- Regenerated obligation: every `range` over a map in martian/syntax and
 martian/core is a site whose statement was reviewed (a new site, or a site whose
 statement changed since the review, breaks this). -/
-theorem all_map_range_sites_reviewed : Gen.c10Unreviewed = [] := by decide
+theorem all_map_range_sites_reviewed :
+    Gen.c10Unreviewed_extracted = true ∧ Gen.c10Unreviewed = [] := by decide
 
 /-- Regenerated obligation: no reviewed site lets the iteration order reach
 compiler / formatter / call-graph output. -/
-theorem no_order_dependent_output_site : Gen.c10OrderDependent = [] := by decide
+theorem no_order_dependent_output_site :
+    Gen.c10OrderDependent_extracted = true ∧ Gen.c10OrderDependent = [] := by decide
 
 /-- The site list is not vacuous (the type-checker found the maps). -/
 theorem map_range_sites_found : 100 ≤ Gen.c10MapRangeCount := by decide
@@ -177,6 +179,16 @@ theorem accumulate_agrees_with_unsorted (l : List (Key × EntryRes)) (hn : nodup
     (nodupKeys_iff _).mpr ((hp.map Prod.fst).nodup_iff.mpr ((nodupKeys_iff l).mp hn))
   have := accumulateIn_order_independent_up_to_error_order (sortK l) l hp hn'
   exact ⟨this.1, this.2.1, this.2.2.1⟩
+
+/-! ### per-site NAMES of `accumulate_order_independent` (documentation, not additional guarantees)
+
+Audit MEDIUM-1: the five theorems below are ONE statement (`accumulate l₁ = accumulate l₂`,
+i.e. `accumulate_order_independent`) under the names of the Go loops that have this shape after
+their fixes: `invertSplit`, `wrapDisabled`, `MergeExp.BindingPath`, `CallGraphStage/Pipeline.unsplit`,
+`Node.resolveInputs` / `TopNode.resolveMap`.  Nothing in Lean distinguishes the sites: what ties
+each Go function to `accumulate` is the differential `C10.accum` (the real function's per-entry
+contributions fed to the model, for the first four) and the provocations (all of them).  They
+count as one guarantee. -/
 
 /-- `invertSplit` (split_expression.go, MapExp branch; fix 3cfd1e8) -/
 theorem invertSplit_order_independent (l₁ l₂ : List (Key × EntryRes)) (h : l₁.Perm l₂)
